@@ -664,6 +664,32 @@ impl rustc_driver::Callbacks for Cb {
                         out.push_str(&v);
                     }
                     out.push(']');
+                    // every non-reference assignment of each promoted body, in order (array literals: the
+                    // element values precede the array aggregate)
+                    out.push_str(",\"promoted_all\":[");
+                    for (pi, pb) in proms.iter().enumerate() {
+                        if pi > 0 {
+                            out.push(',');
+                        }
+                        out.push('[');
+                        let mut first = true;
+                        for data in pb.basic_blocks.iter() {
+                            for st in &data.statements {
+                                if let StatementKind::Assign(b) = &st.kind {
+                                    let (pl, rv) = &**b;
+                                    if !matches!(rv, Rvalue::Ref(..)) {
+                                        if !first {
+                                            out.push(',');
+                                        }
+                                        first = false;
+                                        out.push_str(&format!("[{},{}]", pl.local.as_usize(), cx.rvalue(pb, tenv, rv)));
+                                    }
+                                }
+                            }
+                        }
+                        out.push(']');
+                    }
+                    out.push(']');
                 }
             }
             // coroutine layout: types of locals saved across suspension points
@@ -702,7 +728,12 @@ impl rustc_driver::Callbacks for Cb {
                         if vi > 0 {
                             out.push(',');
                         }
-                        let _ = write!(out, "{{\"name\":{},\"fields\":[", js(&v.name.to_string()));
+                        let discr = if adt.is_enum() {
+                            adt.discriminant_for_variant(tcx, rustc_abi::VariantIdx::from_usize(vi)).val.to_string()
+                        } else {
+                            "0".to_string()
+                        };
+                        let _ = write!(out, "{{\"name\":{},\"discr\":{},\"fields\":[", js(&v.name.to_string()), js(&discr));
                         for (fi, f) in v.fields.iter().enumerate() {
                             if fi > 0 {
                                 out.push(',');
